@@ -82,7 +82,7 @@ TrDiscard ==
 
 TrSF ==
   /\ IsEvent("SF")
-  /\ sfs' = Append(sfs, [m |-> Trace[l].m, fn |-> Trace[l].fn, fd |-> Trace[l].fd])
+  /\ sfs' = Append(sfs, [m |-> Trace[l].m, rank |-> Trace[l].rank])
   /\ UNCHANGED <<vars, mode, sels>>
 
 TrEnd ==
@@ -101,19 +101,25 @@ SelectorConsistent ==
   Done => /\ \A k \in DOMAIN sels : \A j \in DOMAIN sels[k].items :
                LET i == sels[k].items[j] IN Len(out[i]) = 1 => ((Dec(i).d = "keep") = (j <= sels[k].ret))
           /\ \A k1, k2 \in DOMAIN sels : k1 # k2 => ToSet(sels[k1].items) \cap ToSet(sels[k2].items) = {}
+\* C05 on the real callbacks: a row that went through a SelectF call carries exactly the factor the
+\* selector was given (it keeps with probability 1/sf); any other row is kept unconditionally, factor 1
+TrUnbiased ==
+  ~Opt.quota => \A i \in Bucket : Len(out[i]) = 1 =>
+     LET k == SelOf(i) IN IF k = 0 THEN Dec(i).fn = Dec(i).fd /\ Dec(i).d = "keep"
+                          ELSE Dec(i).fn = sels[k].fn /\ Dec(i).fd = sels[k].fd
 TrKeptWithinBudget == KeptWithinBudgetOf(mode.s, mode.r, BoundClass)
 TrQuotaWithinTotal == QuotaWithinTotalOf(mode.r)
-\* reported factor of a metric (1 when nothing is reported)
-Of2(m) == sfs[CHOOSE k \in DOMAIN sfs : sfs[k].m = m /\ sfs[k].fn > sfs[k].fd]
-SfN(m) == IF \E k \in DOMAIN sfs : sfs[k].m = m /\ sfs[k].fn > sfs[k].fd THEN (Of2(m)).fn ELSE 1
-SfD(m) == IF \E k \in DOMAIN sfs : sfs[k].m = m /\ sfs[k].fn > sfs[k].fd THEN (Of2(m)).fd ELSE 1
+\* reported factor of a metric: the harness logs the rank of the reported float32 value among the
+\* factors above 1 reported in this run (0 when nothing above 1 is reported, i.e. factor 1)
+SfRank(m) == IF \E k \in DOMAIN sfs : sfs[k].m = m THEN sfs[CHOOSE k \in DOMAIN sfs : sfs[k].m = m].rank ELSE 0
 \* sibling metrics that are leaves: larger size/weight ratio => not smaller reported factor
 IsMetricLeafKid(c) == ~c.fixed /\ ~c.nsa /\ ~c.inner /\ Len(c.id) >= 2 /\ c.id[Len(c.id) - 1] = 3
 TrMonotone ==
   (Done /\ ~Opt.quota /\ ~Opt.single) =>
     \A n \in Nodes(plan) : \A a, b \in n.kids :
-      (IsMetricLeafKid(a) /\ IsMetricLeafKid(b) /\ a.size * b.weight > b.size * a.weight) =>
-         SfN(a.id[Len(a.id)]) * SfD(b.id[Len(b.id)]) >= SfN(b.id[Len(b.id)]) * SfD(a.id[Len(a.id)])
+      \* (a share of 0 is sampled as a share of 1 unit whatever the weight: `if sfDenom < 1 { sfDenom = 1 }`)
+      (IsMetricLeafKid(a) /\ IsMetricLeafKid(b) /\ a.size * b.weight > b.size * a.weight /\ (a.fit \/ a.b >= 1) /\ (b.fit \/ b.b >= 1)) =>
+         SfRank(a.id[Len(a.id)]) >= SfRank(b.id[Len(b.id)])
 
 HighWater == TLCSet(7, IF l > TLCGet(7) THEN l ELSE TLCGet(7))
 TraceAccepted == IF TLCGet(7) = Len(Trace) + 1 THEN TRUE
